@@ -74,16 +74,33 @@ def drive(rec):
         a = np.array([z])
         rows.append(row(lambda: (E.cov_radii(a)[0], E.vdw_radii(a)[0], e0.mass, E.element_names(a)[0], E.element_symbols(a)[0])))
         t["rows"] = rows
+    elif k == "cmp":
+        a = rec["a"]
+        t.update(exc="", lt=[], le=[], gt=[], ge=[], eq=[], ne=[], hasheq=[])
+        try:
+            # fresh objects for every comparison (two carbons, not the same carbon twice)
+            for b in range(1, 104):
+                x, y = Element.from_atomic_number(a), Element.from_atomic_number(b)
+                t["lt"].append(bool(x < y)); t["le"].append(bool(x <= y)); t["gt"].append(bool(x > y))
+                t["ge"].append(bool(x >= y)); t["eq"].append(bool(x == y)); t["ne"].append(bool(x != y))
+                t["hasheq"].append(bool(hash(x) == hash(y)))
+        except Exception as ex:
+            t["exc"] = type(ex).__name__
     elif k == "sort":
         zs = rec["zs"]
-        t.update(exc="", sorted=[], formula="", formula_sub="")
+        t.update(exc="", sorted=[], formula="", formula_sub="", sorted_idx=[])
         try:
             els = [Element.from_atomic_number(z) for z in zs]
             t["sorted"] = [int(e.atomic_number) for e in sorted(els)]
             t["formula"] = chemical_formula(els)
             sub = chemical_formula(els, subscript=True)
-            t["formula_sub"] = "".join(chr(ord("0") + ord(ch) - 0x2080) if 0x2080 <= ord(ch) <= 0x2089 else (ch if ord(ch) < 128 else "?")
-                                       for ch in sub)
+            # subscript digits are transliterated to ASCII digits; an ASCII digit in the subscript rendering is not a
+            # subscript and is shipped as '#'
+            t["formula_sub"] = "".join(chr(ord("0") + ord(ch) - 0x2080) if 0x2080 <= ord(ch) <= 0x2089 else
+                                       ("#" if ch.isdigit() else (ch if ord(ch) < 128 else "?")) for ch in sub)
+            # sorting is observed on distinguishable objects too: equal elements keep their order of appearance
+            tagged = [(e, i + 1) for i, e in enumerate(els)]
+            t["sorted_idx"] = [i for _, i in sorted(tagged, key=lambda p: p[0])]
         except Exception as ex:
             t["exc"] = type(ex).__name__
     return t
@@ -106,6 +123,7 @@ def run(ctx):
     recs += [{"k": "int", "n": n} for n in range(-200, 301)]
     recs += [{"k": "name", "z": z} for z in range(1, 104)]
     recs += [{"k": "data", "z": z} for z in range(1, 104)]
+    recs += [{"k": "cmp", "a": z} for z in range(1, 104)]
     rng = ctx.rng
     for _ in range(ctx.pick(300, 5000)):
         m = rng.randint(1, 14)
